@@ -203,7 +203,7 @@ fn corpus() -> Vec<Case> {
         ],
         tag: "corpus-k0",
     });
-    // (3) K-C31-deleted witness
+    // (3) witness of the repaired defect K-C31-deleted (deleted nodes were returned)
     cs.push(Case {
         m: 16, efc: 200, efs: 200, nodes: 3,
         ops: vec![
@@ -416,7 +416,7 @@ fn run_case(c: &Case, base: &std::path::Path) -> Result<Outcome, String> {
                 };
                 out.n_search += 1;
                 // spec side: brute force over the stored vectors, order (d2, id)
-                let mut all: Vec<(u64, u32)> = stored.iter().map(|(id, v)| (d2(q, v), *id)).collect();
+                let mut all: Vec<(u64, u32)> = stored.iter().filter(|(id, _)| !deleted.contains(*id)).map(|(id, v)| (d2(q, v), *id)).collect();
                 all.sort();
                 let bf: Vec<(u32, u64)> = all.iter().take(*k).map(|(d, i)| (*i, *d)).collect();
                 let coq_ir = match &ir {
@@ -428,6 +428,7 @@ fn run_case(c: &Case, base: &std::path::Path) -> Result<Outcome, String> {
                 out.js_ops.push(json!({"search": q, "k": k, "impl": format!("{:?}", ir), "brute_force": bf}));
                 // ---- direct search: the property on the implementation's output
                 let n = stored.len();
+                let n_live = stored.keys().filter(|id| !deleted.contains(*id)).count();
                 match &ir {
                     IRes::Ok(r) => {
                         if !r.is_empty() {
@@ -453,8 +454,7 @@ fn run_case(c: &Case, base: &std::path::Path) -> Result<Outcome, String> {
                                         out.fails.push((cls, format!("node {id}: reported distance {} but exact distance is sqrt({exact})", dists[j])));
                                     }
                                     if !live.contains(id) {
-                                        let cls = if deleted.contains(id) { Some("K-C31-deleted") } else { None };
-                                        out.fails.push((cls, format!("result node {id} does not exist (deleted: {})", deleted.contains(id))));
+                                        out.fails.push((None, format!("result node {id} does not exist (deleted: {})", deleted.contains(id))));
                                     }
                                 }
                             }
@@ -463,6 +463,7 @@ fn run_case(c: &Case, base: &std::path::Path) -> Result<Outcome, String> {
                             }
                         }
                         // exactness for small indexes
+                        let _ = n_live;
                         if n <= 2 * c.m + 1 && c.efs >= n {
                             let got: Vec<u64> = r.iter().map(|x| x.1).collect();
                             let want: Vec<u64> = bf.iter().map(|x| x.1).collect();
